@@ -172,6 +172,9 @@ impl<'input> Parser<'input> {
     /// This is the expected format of the string value of the `fields` argument of some directives
     /// like [`@requires`](https://www.apollographql.com/docs/federation/federated-types/federated-directives/#requires).
     pub fn parse_selection_set(mut self) -> SyntaxTree<SelectionSet> {
+        self.builder
+            .borrow_mut()
+            .start_standalone(SyntaxKind::SELECTION_SET);
         grammar::selection::field_set(&mut self);
 
         let builder = Rc::try_unwrap(self.builder)
@@ -196,6 +199,9 @@ impl<'input> Parser<'input> {
     /// This is the expected format of the string value of the `type` argument
     /// of some directives like [`@field`](https://specs.apollo.dev/join/v0.3/#@field).
     pub fn parse_type(mut self) -> SyntaxTree<Type> {
+        self.builder
+            .borrow_mut()
+            .start_standalone(SyntaxKind::NAMED_TYPE);
         grammar::ty::ty(&mut self);
 
         let builder = Rc::try_unwrap(self.builder)
